@@ -569,6 +569,11 @@ def getslice(it, fr, o, lo, hi, step):
             top = o.n if hi is None else z3.If(o.n < hi, o.n, z3.IntVal(hi))
             it.eng.add(n == z3.If(top - lo_ < 0, z3.IntVal(0), top - lo_))
             return SStr(n, chars, f'{o.name}[{lo_}:{hi}]' if o.name else '')
+    if isinstance(o, SStr) and step is None and lo in (None, 0) and isinstance(hi, int) and hi < 0:
+        k = -hi
+        n = z3.Int(f'slice_n({o.name},0,{hi})') if o.name else it.eng.fresh('slice_n', z3.IntSort())
+        it.eng.add(n == z3.If(o.n - k < 0, z3.IntVal(0), o.n - k))
+        return SStr(n, o.chars[:max(o.L - k, 0)], f'{o.name}[0:{hi}]' if o.name else '')
     if isinstance(o, SBytes) and unrollable(o) and step is None and (lo is None or isinstance(lo, int)) and (hi is None or isinstance(hi, int)):
         lo_ = lo or 0
         c = cap(o)
@@ -1871,7 +1876,22 @@ def sstr_method(it, fr, s, attr, args, kw):
     if attr in ('startswith', 'endswith') and len(args) == 1 and isinstance(args[0], tuple) and all(isinstance(t, str) for t in args[0]):
         rs = [sstr_method(it, fr, s, attr, [t], {}) for t in args[0]]
         return SBool(zor([r.e if isinstance(r, SBool) else r for r in rs]))
-    if attr in ('strip', 'lstrip', 'rstrip', 'removesuffix', 'removeprefix', 'replace', 'split', 'casefold', 'title', 'join', 'format', 'zfill', 'translate'):
+    if attr == 'removesuffix' and len(args) == 1 and isinstance(args[0], str):
+        t = args[0]
+        if not t:
+            return s
+        ends = sstr_method(it, fr, s, 'endswith', [t], {})
+        if fr.truth(ends):
+            return getslice(it, fr, s, None, -len(t), None)
+        return s
+    if attr == 'removeprefix' and len(args) == 1 and isinstance(args[0], str):
+        t = args[0]
+        if not t:
+            return s
+        if fr.truth(sstr_method(it, fr, s, 'startswith', [t], {})):
+            return getslice(it, fr, s, len(t), None, None)
+        return s
+    if attr in ('strip', 'lstrip', 'rstrip', 'replace', 'split', 'casefold', 'title', 'join', 'format', 'zfill', 'translate'):
         from .strauto import str_transform
         return str_transform(it, fr, s, attr, args, kw)
     if attr == '__len__':
